@@ -161,10 +161,17 @@ fn translate_position(input: &[u8], index: usize) -> (usize, usize) {
     };
     let line = input[0..line_start].iter().filter(|b| **b == b'\n').count();
 
-    let column = std::str::from_utf8(&input[line_start..=index])
-        .map(|s| s.chars().count() - 1)
-        .unwrap_or_else(|_| index - line_start);
-    let column = column + column_offset;
+    // Count the characters before the position; a slice ending at `..=index` would end inside
+    // a multi-byte character
+    let (before, past_end) = if 0 < column_offset {
+        (&input[line_start..], column_offset - 1)
+    } else {
+        (&input[line_start..index], 0)
+    };
+    let column = std::str::from_utf8(before)
+        .map(|s| s.chars().count())
+        .unwrap_or(before.len());
+    let column = column + past_end;
 
     (line, column)
 }
